@@ -202,6 +202,8 @@ func vpApplyRespCell(role StateType, shapes []int) {
 	o.shapes = shapes
 	o.noSizeLimit = false
 	o.plainData = true
+	o.leaderPr = false // the peers' replication state is irrelevant to apply acknowledgements
+	o.ls, o.lu = 1, 1
 	nd := vpBuild(o)
 	r := nd.r
 	l := r.raftLog
@@ -209,7 +211,9 @@ func vpApplyRespCell(role StateType, shapes []int) {
 	// index <= applying (stale acknowledgements end at or below applied)
 	kk := 1 + vpChoose(2)
 	end := vpU64()
-	vpAssume(vpAnd(end <= l.applying, end >= uint64(kk)))
+	// (and persisted: the append acknowledgement precedes the apply acknowledgement
+	// in Advance, and asynchronous mode only hands out stable entries)
+	vpAssume(vpAnd(end <= l.applying, end >= uint64(kk), end < l.unstable.offset))
 	var ents []*pb.Entry
 	k := &vpConds{}
 	for i := 0; i < kk; i++ {
